@@ -365,6 +365,10 @@ def units(tier):
         U.must_fail_twin(r, "vacuity.must_fail_twin", lambda: unit_rowcountF(ev, twin=True))
         return r
     us.append(("C13.fglue.GetSelectedOutputRowCountF", mkrc))
+    from props import c13_registry as RG
+    from props.common import wrap as _wrap
+    _wrap(us, "C13.registry.ids_never_reused", RG.unit_registry)
+    _wrap(us, "C13.switches.simple_store", RG.unit_switch_store)
     return us
 
 
